@@ -35,7 +35,8 @@ def explore(res, rng, n):
         dom = lambda c, nx, lim=lim: bool(np.all(np.abs(nx) <= lim))
         cands, us = [], []
         prop = lambda c: cands[-1]
-        s = rpm.MetropolisHastingsSampler(initialVal=list(map(float, cur)), targetPdf=f, proposalCSampler=prop, sampleDomain=dom)
+        start = np.array(cur, dtype=float) if i % 3 == 0 else list(map(float, cur))
+        s = rpm.MetropolisHastingsSampler(initialVal=start, targetPdf=f, proposalCSampler=prop, sampleDomain=dom)
         state = list(cur)
         for step in range(rng.choice([1, 3, 6])):
             cand = [v + rng.choice([-1, 0, 1, 2]) for v in state]
@@ -46,9 +47,18 @@ def explore(res, rng, n):
             fcur, fcand = int(f(np.array(state))), int(f(np.array(cand)))
             if fcur == 0:
                 break
-            with mock.patch.object(np.random, 'uniform', side_effect=lambda *a, **k: u):
-                out = s.getSample()
+            try:
+                with mock.patch.object(np.random, 'uniform', side_effect=lambda *a, **k: u):
+                    out = s.getSample()
+            except Exception as e:  # noqa
+                fail(res, 'step raised %s on non-negative densities: %s' % (type(e).__name__, str(e)[:80]), 'MetropolisHastingsSampler.getSample',
+                     {'cur': state, 'cand': cand, 'u': [unum, uden], 'fcur': fcur, 'fcand': fcand, 'limit': lim}, None)
+                break
             res.evaluations += 1
+            if isinstance(start, np.ndarray) and [int(v) for v in start] != list(cur):
+                fail(res, 'the start-point array of the caller was modified by the chain', 'MetropolisHastingsSampler.getSample',
+                     {'start': list(cur), 'cand': cand, 'u': [unum, uden]}, start.tolist())
+                start = np.array(cur, dtype=float)
             res.nontrivial.add(('mh', tuple(state), tuple(cand), unum, uden, fcur, fcand))
             res.stat('mh_accept_region' if Fraction(unum, uden) <= Fraction(fcand, fcur) else 'mh_reject_region')
             res.stat('mh_domain_%s' % ('in' if dom(None, np.array(cand)) else 'out'))
@@ -90,8 +100,13 @@ def explore(res, rng, n):
             fcand = [int(fs[j](cand[j])) for j in range(d)]
             if any(v == 0 for v in fcur):
                 break
-            with mock.patch.object(np.random, 'uniform', side_effect=lambda *a, **k: next(it)):
-                out = s.getSample()
+            try:
+                with mock.patch.object(np.random, 'uniform', side_effect=lambda *a, **k: next(it)):
+                    out = s.getSample()
+            except Exception as e:  # noqa
+                fail(res, 'step raised %s on non-negative densities: %s' % (type(e).__name__, str(e)[:80]), 'AuModifiedMHSampler.getSample',
+                     {'cur': list(cur), 'cand': list(cand), 'u': list(zip(uns, uds)), 'fcur': fcur, 'fcand': fcand, 'limit': lim, 'step': step}, None)
+                break
             res.evaluations += 1
             res.nontrivial.add(('au', tuple(cur), tuple(cand), tuple(uns), tuple(uds)))
             res.stat('au_step_%d' % min(step, 3))
